@@ -522,15 +522,25 @@ func (r *Runtime) Submit(operation *runtime.ClientOperation) (interface{}, error
 		r.logger.Debugf("%s\n", string(b))
 	}
 
-	mt, _, err := mime.ParseMediaType(ct)
-	if err != nil {
-		return nil, fmt.Errorf("parse content type: %s", err)
-	}
+	// Only the media type selects the consumer: parameters are not interpreted here, so a
+	// malformed or duplicate parameter must not hide the media type.
+	base, _, _ := strings.Cut(ct, ";")
+	mt, _, err := mime.ParseMediaType(base)
 
-	cons, ok := r.Consumers[mt]
+	var (
+		cons runtime.Consumer
+		ok   bool
+	)
+	if err == nil {
+		cons, ok = r.Consumers[mt]
+	}
 	if !ok {
+		// unknown or unrecognizable media type: only the catch-all consumer may take it
 		if cons, ok = r.Consumers["*/*"]; !ok {
 			// scream about not knowing what to do
+			if err != nil {
+				return nil, fmt.Errorf("parse content type %q: %w", ct, err)
+			}
 			return nil, fmt.Errorf("no consumer: %q", ct)
 		}
 	}
